@@ -596,6 +596,12 @@ def wf_class(s):
             valid_obj(s, st), s.sel("State.value", st) == v, n >= 0,
             valid_obj(s, s.sel("State.transitions", st)),
             valid_obj(s, s.sel("TransitionList.transitions", s.sel("State.transitions", st)))))),
+        "wfc:initial-state-mapped": z3.And(
+            valid_obj(s, s.sel("StateMachine.initial_state", W.SM)),
+            smap_has(s, s.sel("State.value", s.sel("StateMachine.initial_state", W.SM))),
+            smap_val(s, s.sel("State.value", s.sel("StateMachine.initial_state", W.SM))) == s.sel("StateMachine.initial_state", W.SM)),
+        "wfc:mapped-states-have-groupers": z3.ForAll([v], z3.Implies(smap_has(s, v), z3.And(
+            valid_obj(s, s.sel("State.enter", st)), valid_obj(s, s.sel("State.exit", st))))),
         "wfc:transitions-wf": z3.ForAll([v, j], z3.Implies(
             z3.And(smap_has(s, v), j >= 0, j < n),
             z3.And(wf_transition(s, z3.Select(arr, j)), s.sel("Transition.source", z3.Select(arr, j)) == st))),
